@@ -399,7 +399,7 @@ Proof.
     unfold quiet; cbn [forallb quiet_ev andb]; apply wait_for_quit_quiet.
 Qed.
 
-Lemma envelope_env_of f rc : envelope f rc = env_of (Some (f, good rc)).
+Lemma envelope_env_of lh f rc : envelope lh f rc = env_of lh (Some (f, good rc)).
 Proof.
   unfold envelope, env_of, good. rewrite map_map. reflexivity.
 Qed.
@@ -468,13 +468,13 @@ Proof.
   destruct de as [msg sz seen|l seen|l seen|big l|lw| |].
   - (* end of data *)
     destruct Hfree1 as (HIf & Hcf & HRf).
-    assert (Hho : trace_step o (Handoff (envelope (mailfrom (set_rd sq r')) (rcpts (set_rd sq r'))) msg) a = Some a).
+    assert (Hho : trace_step o (Handoff (envelope (o_liphost o) (mailfrom (set_rd sq r')) (rcpts (set_rd sq r'))) msg) a = Some a).
     { assert (Em : mailfrom (set_rd sq r') = fr) by (unfold set_rd, sq; cbn [mailfrom]; congruence).
       assert (Er : good (rcpts (set_rd sq r')) = rs) by (unfold set_rd, sq; cbn [rcpts]; congruence).
       cbn [trace_step]. rewrite Htxn, envelope_env_of, Em, Er, bytes_eqb_refl. reflexivity. }
     destruct (o_qq o k) eqn:Eqq.
     + inversion H; subst evs h s'. clear H. exists ab.
-      split. { change (trace_run o ([Note (NData k); Reply 354] ++ [Handoff (envelope (mailfrom (set_rd sq r')) (rcpts (set_rd sq r'))) msg; Note NBoundary; Reply 250]) a = Some ab).
+      split. { change (trace_run o ([Note (NData k); Reply 354] ++ [Handoff (envelope (o_liphost o) (mailfrom (set_rd sq r')) (rcpts (set_rd sq r'))) msg; Note NBoundary; Reply 250]) a = Some ab).
                rewrite trace_run_app, Htr1. cbn [trace_run]. rewrite Hho, Hbd. reflexivity. }
       split; [exact HIf|].
       split. { simpl. rewrite Eqq. reflexivity. }
@@ -772,13 +772,13 @@ Qed.
     recipients accepted (and not withdrawn) since, in order *)
 Theorem handoff_is_open_transaction chunks pre env msg post :
   run_session o chunks = pre ++ Handoff env msg :: post ->
-  exists a f rs, trace_run o pre a_init = Some a /\ a_txn a = Some (f, rs) /\ env = env_of (Some (f, rs)).
+  exists a f rs, trace_run o pre a_init = Some a /\ a_txn a = Some (f, rs) /\ env = env_of (o_liphost o) (Some (f, rs)).
 Proof.
   intros E. destruct (session_trace_ok chunks) as [Ht _]. unfold trace_ok in Ht. rewrite E in Ht.
   destruct (trace_run_prefix pre (Handoff env msg :: post) a_init Ht) as (a & Ha).
   rewrite trace_run_app, Ha in Ht. cbn [trace_run trace_step] in Ht.
   destruct (a_txn a) as [[f rs]|] eqn:Et; [|congruence].
-  destruct (bytes_eqb env (env_of (Some (f, rs)))) eqn:Eb; [|congruence].
+  destruct (bytes_eqb env (env_of (o_liphost o) (Some (f, rs)))) eqn:Eb; [|congruence].
   apply bytes_eqb_eq in Eb. exists a, f, rs. auto.
 Qed.
 
